@@ -135,6 +135,89 @@ def shared_probe():
     return res
 
 
+def errors_map_table():
+    """the HTTPError objects every application shares through DefaultConfig.errors_map:
+    [(exception class name, status code, status line, body, [(header, value)], pristine)] where
+    pristine = no cookies, no exception, no traceback recorded on the shared object"""
+    from ombott.ombott import DefaultConfig
+    out = []
+    for cls, err in DefaultConfig.errors_map.items():
+        hdrs = []
+        for k, v in err._headers.items():
+            for x in (v if isinstance(v, list) else [v]):
+                hdrs.append((str(k), str(x)))
+        pristine = (not err._cookies) and getattr(err, 'exception', None) is None \
+            and getattr(err, 'traceback', None) is None
+        out.append((cls.__name__, int(err.status_code), str(err.status_line), str(err.body), hdrs, bool(pristine)))
+    return out
+
+
+def errors_map_probe():
+    """serve requests that fail onto each mapped error (twice, two applications, HTML / JSON / debug
+    pages, a custom error handler) and report whether the shared objects still look the same"""
+    from ombott import Ombott
+    from ombott.ombott import DefaultConfig
+
+    def snap():
+        return [(cls.__name__, _snap(dict(code=e._status_code, line=e._status_line, body=e.body,
+                                         headers=dict(e._headers), cookies=str(e._cookies),
+                                         exception=repr(getattr(e, 'exception', None)),
+                                         traceback=getattr(e, 'traceback', None))))
+                for cls, e in DefaultConfig.errors_map.items()]
+    before = snap()
+    for cfg in ({}, {'debug': True}):
+        app = Ombott(dict(cfg, max_memfile_size=8))
+
+        def h_json():
+            return str(app.request.json)
+
+        def h_form():
+            return str(app.request.forms.get('f'))
+        app.route('/j', method='POST', callback=h_json)
+        app.route('/f', method='POST', callback=h_form)
+
+        @app.error(413)
+        def on413(res):
+            app.response.headers['X-Seen'] = str(app.response.status)
+            return 'custom:' + str(res.body)
+        for path, ctype, body in (('/j', 'application/json', b'{bad'), ('/f', 'application/x-www-form-urlencoded', b'f=' + b'x' * 40)):
+            for accept in (None, 'application/json'):
+                env = {'REQUEST_METHOD': 'POST', 'PATH_INFO': path, 'QUERY_STRING': '', 'wsgi.errors': io.StringIO(),
+                       'wsgi.input': io.BytesIO(body), 'CONTENT_LENGTH': str(len(body)), 'CONTENT_TYPE': ctype,
+                       'SERVER_NAME': 'h', 'SERVER_PORT': '80', 'wsgi.url_scheme': 'http'}
+                if accept:
+                    env['HTTP_ACCEPT'] = accept
+                b''.join(app(env, lambda *a: None))
+    return before == snap()
+
+
+def in_child(fn):
+    """run fn() in a forked child so that probing does not touch the module state of this process"""
+    import os
+    import pickle
+    r, w = os.pipe()
+    pid = os.fork()
+    if pid == 0:
+        try:
+            os.close(r)
+            try:
+                data = pickle.dumps(('ok', fn()))
+            except BaseException as e:      # noqa
+                data = pickle.dumps(('err', '%s: %s' % (type(e).__name__, e)))
+            with os.fdopen(w, 'wb') as f:
+                f.write(data)
+        finally:
+            os._exit(0)
+    os.close(w)
+    with os.fdopen(r, 'rb') as f:
+        data = f.read()
+    os.waitpid(pid, 0)
+    kind, val = pickle.loads(data)
+    if kind != 'ok':
+        raise RuntimeError(val)
+    return val
+
+
 def generate():
     from ombott.request_pkg.request import Request
     from ombott.response import Response
@@ -143,7 +226,9 @@ def generate():
     rs_store, rs, rs_local = ts_list(Response)
     hd = HeaderDict()
     hd_local = isinstance(hd._ts, threading.local)
-    shared = shared_probe()
+    shared = in_child(shared_probe)
+    emap = errors_map_table()
+    emap_ro = in_child(errors_map_probe)
     out = []
     out.append('/-- attributes `ts_props` made thread-local on `Request`, in the order `init_wrapper` resets them -/')
     out.append(f'def requestTsProps : List String := {llist([lstr(x) for x in rq])}')
@@ -161,4 +246,14 @@ def generate():
                '`idempotent` (re-created or rewritten with equal content), `mutated` -/')
     out.append('def sharedTouched : List (String × String × String) := ' +
                llist([f'({lstr(o)}, {lstr(s)}, {lstr(k)})' for o, s, k in shared]))
+    out.append('/-- the `HTTPError` objects of `DefaultConfig.errors_map`, shared by every application and thread:\n'
+               'exception class, status code, status line, body, headers, and whether the object carries no\n'
+               'cookies, exception or traceback -/')
+    out.append('def errorsMap : List (String × Int × String × String × List (String × String) × Bool) := ' +
+               llist(['(%s, %d, %s, %s, %s, %s)' % (lstr(n), c, lstr(l), lstr(b),
+                                                    llist(['(%s, %s)' % (lstr(k), lstr(v)) for k, v in h]), lbool(p))
+                      for n, c, l, b, h, p in emap]))
+    out.append('/-- a probe that makes requests fail onto every mapped error (HTML, JSON, debug pages, a custom\n'
+               'error handler, two applications) left the shared objects as they were -/')
+    out.append(f'def errorsMapReadOnly : Bool := {lbool(emap_ro)}')
     return '\n'.join(out) + '\n'
